@@ -28,11 +28,19 @@ NoPhantomObs(obs, ph) == IF obs.def.tag = "composite" THEN NoPhantomIn(obs.def.f
 IndicesOK(d, obs) == d.kind = "enum" => LET kv == KeptVariants(d) IN
     /\ Len(obs.def.variants) = Len(kv)
     /\ \A j \in 1..Len(kv) : obs.def.variants[j].index = ExpIndex(d, j)
+\* a reported definition with every type reference replaced by 0
+BlankRefF(fs) == [k \in 1..Len(fs) |-> [fs[k] EXCEPT !.ty = 0]]
+BlankRefs(o) == [o EXCEPT !.params = [k \in 1..Len(@) |-> [@[k] EXCEPT !.ty = IF @ = <<>> THEN <<>> ELSE <<0>>]],
+                          !.def = CASE @.tag = "composite" -> [@ EXCEPT !.fields = BlankRefF(@)]
+                                    [] @.tag = "variant" -> [@ EXCEPT !.variants = [k \in 1..Len(@) |-> [@[k] EXCEPT !.fields = BlankRefF(@)]]]
+                                    [] OTHER -> @]
 AcceptDerived(e) ==
   LET d == DeclOf(e.id) IN
   CASE Check = "C09" -> IF BlankIdx(e.obs) = Meta(d, EnvOf(e, d), FALSE)
                              \* ... and in the PORTABLE form too a parameter is without a type exactly when it is skipped
-                             /\ e.pparams = [i \in 1..Len(d.tparams) |-> <<d.tparams[i].name, ~d.tparams[i].skip>>] THEN TRUE
+                             /\ e.pparams = [i \in 1..Len(d.tparams) |-> <<d.tparams[i].name, ~d.tparams[i].skip>>]
+                             \* ... and carries the same path, names, type names, indices and docs at every level
+                             /\ e.pview = BlankRefs(e.obs) THEN TRUE
                         ELSE PrintT(<<"EXPECTED", ToJson(Meta(d, EnvOf(e, d), FALSE)), "PORTABLE PARAMETERS", e.pparams>>) /\ FALSE
     [] Check = "C03" -> IndicesOK(d, e.obs)
     [] Check = "C17" -> NoPhantomObs(e.obs, e.phantom)
